@@ -97,7 +97,7 @@ impl<const N: usize> AEADCipherCodec<N> {
         match session.mode {
             Mode::Client => {
                 let temp = msg.split_to(msg.len());
-                address::encode(session.address.as_ref().unwrap(), msg);
+                address::encode(session.address.as_ref().unwrap(), msg)?;
                 let is_aead_2022 = context.kind.is_aead_2022();
                 if is_aead_2022 {
                     let padding = aead_2022::next_padding_length(&temp);
